@@ -3,6 +3,8 @@
   Each module answers the requests it knows (`none` = not mine).
 -/
 import RosuModel.Model.Cmds.Frame
+import RosuModel.Model.Cmds.Reader
+import RosuModel.Model.Cmds.Writer
 import RosuModel.Model.Cmds.Codec
 import RosuModel.Model.Cmds.Sections
 import RosuModel.Model.Cmds.HitObj
@@ -12,6 +14,8 @@ namespace Rosu
 def dispatch (toks : List String) : String :=
   ((none : Option String)
     |>.orElse (fun _ => dispatchFrame toks)
+    |>.orElse (fun _ => dispatchReader toks)
+    |>.orElse (fun _ => dispatchWriter toks)
     |>.orElse (fun _ => dispatchCodec toks)
     |>.orElse (fun _ => dispatchSections toks)
     |>.orElse (fun _ => dispatchHitObj toks)
